@@ -1,17 +1,18 @@
-\* C19 thorough: 4-version window
+\* C19 quick, the dimension "what was sent": the repaired initiator put a PROPER subset of its table on the wire
+\* (3-version window, one magic per table), against every reply of the adversarial responder
 CONSTANTS
-  W = 4
+  W = 3
   CliMagics = {1, 2}
   SrvMagics = {1}
-  CliPerVersion = TRUE
+  CliPerVersion = FALSE
   SrvPerVersion = FALSE
-  MaxSize = 4
+  MaxSize = 3
   QCases <- AdvQ
   FlagSpace <- OnlyNoFlags
   FlagsInModel = FALSE
   Responder = "adversary"
   ClientDesign = "fixed"
-  SentSpace = "configured"
+  SentSpace = "proper"
 INIT Init
 NEXT Next
 INVARIANTS TypeOK ClientSafe ClientComplete OnlyAcceptSelects SentOfConfigured UnsentNeverSettles SentDecides SentOnlyJudgesAccepts
